@@ -78,13 +78,13 @@ Definition svalid (w : sworld) (o : sop) : Prop :=
     forall h t, spos ch = Some (h, t) -> hnt <= h
   | SCancel _ => True
   | SUpd r =>
-    (* historical rescan answers are truthful about the active chain at delivery,
-       and found details are delivered while some client is registered *)
+    (* historical rescan answers are truthful about the active chain at delivery
+       (no obligation on registered clients since the repair af6371e) *)
     match r with
     | None => spos ch = None
     | Some (h, t) =>
       if h <=? scur st
-      then spos ch = Some (h, t) /\ exists s, sset st = Some s /\ ss_ntfns s <> []
+      then spos ch = Some (h, t)
       else spos ch = None
     end
   | SConnect h sp =>
@@ -182,7 +182,7 @@ Definition cvalid (w : cworld) (o : cop) : Prop :=
     | None => cpos ch = None
     | Some (h, b) =>
       if h <=? cur st
-      then cpos ch = Some (h, b) /\ exists s, cset st = Some s /\ cs_ntfns s <> []
+      then cpos ch = Some (h, b)
       else cpos ch = None
     end
   | CConnect h _ has =>
